@@ -99,6 +99,9 @@ class NumpyExperimenter(experimenter.Experimenter):
     features = self._converter.to_features(suggestions)
     for idx, suggestion in enumerate(suggestions):
       val = self.impl(features[idx])
+      if isinstance(val, np.ndarray):
+        # math.isfinite() rejects arrays with ndim > 0 since NumPy 2.x.
+        val = val.item()
       if math.isfinite(val):
         suggestion.complete(vz.Measurement(metrics={self._metric_name: val}))
       else:
